@@ -69,6 +69,28 @@ class TxnType(DataflowTransactionContext):  # pylint: disable=too-few-public-met
     def _intersection(self, key: str, a: Set, b: Set) -> Set:
         return a & b
 
+    @staticmethod
+    def _typeenum_values(
+        compared_type: "TealerTransactionType",
+    ) -> Tuple[Set["TealerTransactionType"], Set["TealerTransactionType"]]:
+        """Return transaction types for which `TypeEnum == compared_type` is true and for which it is false.
+
+        An application call is represented by `Appl` and also by the types which describe its OnCompletion
+        (ApplNoOp, ApplUpdateApplication, ...): all of them have the TypeEnum `appl`.
+
+        Args:
+            compared_type: The type TypeEnum is compared against.
+
+        Returns:
+            types that make the comparison true, types that make the comparison false.
+        """
+        application_types = set(APPLICATION_TRANSACTION_TYPES) | set([TealerTransactionType.Appl])
+        if compared_type == TealerTransactionType.Appl:
+            return application_types, set(TYPEENUM_TRANSACTION_TYPES) - application_types
+        return set([compared_type]), (
+            set(TYPEENUM_TRANSACTION_TYPES) | application_types
+        ) - set([compared_type])
+
     def _get_asserted_transaction_types(  # pylint: disable=too-many-branches, too-many-locals
         self, key: str, ins_stack_value: KnownStackValue
     ) -> Tuple[Set["TealerTransactionType"], Set["TealerTransactionType"]]:
@@ -161,14 +183,10 @@ class TxnType(DataflowTransactionContext):  # pylint: disable=too-few-public-met
 
             if is_value_matches_key(key, arg1, TypeEnum) and value_3 is not None:
                 compared_type = transaction_type_to_tealer_type(value_3)
-                true_values, false_values = set([compared_type]), set(
-                    TYPEENUM_TRANSACTION_TYPES
-                ) - set([compared_type])
+                true_values, false_values = self._typeenum_values(compared_type)
             elif is_value_matches_key(key, arg2, TypeEnum) and value_2 is not None:
                 compared_type = transaction_type_to_tealer_type(value_2)
-                true_values, false_values = set([compared_type]), set(
-                    TYPEENUM_TRANSACTION_TYPES
-                ) - set([compared_type])
+                true_values, false_values = self._typeenum_values(compared_type)
 
             if is_value_matches_key(key, arg1, OnCompletion) and value_3 is not None:
                 compared_on_completion = oncompletion_to_tealer_type(value_3)
